@@ -1,6 +1,7 @@
 import PpciVerif.Model.Proto
 import PpciVerif.Model.CBridge
 import PpciVerif.Model.CLower
+import PpciVerif.Model.CAssign
 /-! Request interpreter of the C01 line-protocol driver (compiled, so that the driver starts fast).
 
 Expressions are sent in prefix form (words separated by blanks):
@@ -22,6 +23,9 @@ Requests:
                           (`on_return` coerces the value to the return type)
   seval <v0,v1,…> e       Spec.CExpr.eval                        -> ok <int> | ok none
   ieval <v0,v1,…> e       Spec.IRExpr.ieval of the compiled tree -> ok <int> | ok none
+  events x                Model.CAssign.events (order and multiplicity of loads/stores/calls of an assignment expression)
+                          x := c | call <f> x | bin x x | lv l | asg l x | casg l x | inc l | comma x x
+                          l := V <n> | I x | D x | M x                       -> ok <ev ev …> | ok -
   mlayout t               Model.CLayout: size align [offsets]
   slayout t               Spec.CLayout:  size align [offsets]
 -/
@@ -142,6 +146,63 @@ def parseTy (ws : List String) : Option Model.CLayout.LTy :=
   | some (t, []) => some t
   | _ => none
 
+mutual
+  def parseR : Nat → List String → Option (Model.CAssign.RExp × List String)
+    | 0, _ => none
+    | fuel + 1, ws =>
+    match ws with
+    | "c" :: rest => some (.const, rest)
+    | "call" :: f :: rest => do
+        let n ← nat? f
+        let (a, r) ← parseR fuel rest
+        pure (.call n a, r)
+    | "bin" :: rest => do
+        let (a, r) ← parseR fuel rest
+        let (b, r) ← parseR fuel r
+        pure (.bin a b, r)
+    | "comma" :: rest => do
+        let (a, r) ← parseR fuel rest
+        let (b, r) ← parseR fuel r
+        pure (.comma a b, r)
+    | "lv" :: rest => do
+        let (l, r) ← parseL fuel rest
+        pure (.lval l, r)
+    | "inc" :: rest => do
+        let (l, r) ← parseL fuel rest
+        pure (.incdec l, r)
+    | "asg" :: rest => do
+        let (l, r) ← parseL fuel rest
+        let (e, r) ← parseR fuel r
+        pure (.assign l e, r)
+    | "casg" :: rest => do
+        let (l, r) ← parseL fuel rest
+        let (e, r) ← parseR fuel r
+        pure (.compound l e, r)
+    | _ => none
+  def parseL : Nat → List String → Option (Model.CAssign.LExp × List String)
+    | 0, _ => none
+    | fuel + 1, ws =>
+    match ws with
+    | "V" :: n :: rest => do
+        let k ← nat? n
+        pure (.var k, rest)
+    | "I" :: rest => do
+        let (e, r) ← parseR fuel rest
+        pure (.index e, r)
+    | "D" :: rest => do
+        let (e, r) ← parseR fuel rest
+        pure (.deref e, r)
+    | "M" :: rest => do
+        let (e, r) ← parseR fuel rest
+        pure (.member e, r)
+    | _ => none
+end
+
+def parseRAll (ws : List String) : Option Model.CAssign.RExp :=
+  match parseR (ws.length + 1) ws with
+  | some (e, []) => some e
+  | _ => none
+
 def showOptInt : Option Int → String
   | some v => s!"ok {v}"
   | none => "ok none"
@@ -198,6 +259,10 @@ def step (line : String) : String :=
           | some c => showOptInt (Spec.IRExpr.ieval (envOf env) c)
           | none => "ok nocode"
       | _, _ => "bad-op"
+  | "events" :: ws => match parseRAll ws with
+      | some e => let es := Model.CAssign.events e
+                  if es.isEmpty then "ok -" else "ok " ++ Model.CAssign.showEvents es
+      | none => "bad-op"
   | "mlayout" :: ws => match parseTy ws with
       | some t => s!"ok {Model.CLayout.sizeof t} {Model.CLayout.alignment t} {showNatList (Model.CLayout.offsets t)}"
       | none => "bad-op"
